@@ -11,10 +11,38 @@ theorem subBal_step_of {R : Rel DB} (P : Params) (a : Addr) (t : Ticker) (v : Na
     (hadd : Step R (addBal P a t 0)) (hdeb : Step R (debit a t v)) : Step R (subBal P a t v) := by
   unfold subBal; step_tac
 
+theorem Step.forEach_mem {σ α} {R : Rel σ} {l : List α} {f : α → M σ Unit} (hf : ∀ a ∈ l, Step R (f a)) :
+    Step R (M.forEach l f) := by
+  induction l with
+  | nil => exact Step.pure' ()
+  | cons x xs ih =>
+    exact Step.bind' (hf x List.mem_cons_self) (fun _ => ih (fun a ha => hf a (List.mem_cons_of_mem _ ha)))
+
+theorem mem_of_mem_zipIdx {α} {l : List α} {k : Nat} {p : α × Nat} (hp : p ∈ l.zipIdx k) : p.1 ∈ l := by
+  induction l generalizing k with
+  | nil => cases hp
+  | cons x xs ih =>
+    rw [List.zipIdx_cons] at hp
+    rcases List.mem_cons.1 hp with h | h
+    · subst h; exact List.mem_cons_self
+    · exact List.mem_cons_of_mem _ (ih h)
+
+theorem Step.forEachIdx_mem {σ α} {R : Rel σ} {l : List α} {f : Nat → α → M σ Unit} (hf : ∀ i, ∀ a ∈ l, Step R (f i a)) :
+    Step R (M.forEachIdx l f) :=
+  Step.forEach_mem (fun p hp => hf p.2 p.1 (mem_of_mem_zipIdx hp))
+
+theorem Step.foldM_mem {σ α β} {R : Rel σ} {f : β → α → M σ β} {l : List α} {b : β} (hf : ∀ b, ∀ a ∈ l, Step R (f b a)) :
+    Step R (M.foldM f b l) := by
+  induction l generalizing b with
+  | nil => exact Step.pure' b
+  | cons x xs ih =>
+    exact Step.bind' (hf b x List.mem_cons_self) (fun b' => ih (fun b a ha => hf b a (List.mem_cons_of_mem _ ha)))
+
 /-- the primitive table operations as the block at height `h` uses them -/
-structure PrimsOK (P : Params) (h : Nat) (R : Rel DB) : Prop where
+structure PrimsOK (P : Params) (h : Nat) (R : Rel DB) (Auth : Addr → Prop := fun _ => True) : Prop where
   addBal : ∀ a t v, Step R (addBal P a t v)
-  subBal : ∀ a t v, Step R (subBal P a t v)
+  /-- `SubFromBalance` has to respect `R` only for the addresses the block is entitled to debit -/
+  subBal : ∀ a t v, Auth a → Step R (subBal P a t v)
   insertRate : ∀ tok v, Step R (insertRate h tok v)
   insertHistBatch : ∀ r, Step R (insertHistBatch r)
   insertHistTx : ∀ r, Step R (insertHistTx r)
@@ -33,7 +61,7 @@ structure PrimsOK (P : Params) (h : Nat) (R : Rel DB) : Prop where
   touch : Step R (M.guarded (fun _ => none) fun db => { db with avgTouched := true })
 
 section
-variable {P : Params} {h : Nat} {R : Rel DB} (ok : PrimsOK P h R)
+variable {P : Params} {h : Nat} {R : Rel DB} {Auth : Addr → Prop} (ok : PrimsOK P h R Auth)
 include ok
 
 /-- bring every primitive fact into the local context (for `apply_assumption`) -/
@@ -49,7 +77,7 @@ macro_rules
 
 /-! ### balances -/
 
-theorem subBal_step (a : Addr) (t : Ticker) (v : Nat) : Step R (subBal P a t v) := PrimsOK.subBal ok a t v
+theorem subBal_stepA (a : Addr) (t : Ticker) (v : Nat) (ha : Auth a) : Step R (subBal P a t v) := PrimsOK.subBal ok a t v ha
 
 /-! ### Batch.lean -/
 
@@ -58,20 +86,21 @@ theorem recordOutputs_step (hash : Hash) (rates avgs : Option TMap) (idx : Nat) 
   prims ok
   unfold recordOutputs; step_tac
 
-theorem recordTx_step (hash : Hash) (rates avgs : Option TMap) (idx : Nat) (t : Tx) :
+theorem recordTx_stepA (hash : Hash) (rates avgs : Option TMap) (idx : Nat) (t : Tx) (ha : Auth t.inAddr) :
     Step R (recordTx P h hash rates avgs idx t) := by
   prims ok
-  have c1 := subBal_step ok
+  have c1 := subBal_stepA ok t.inAddr t.inType t.inAmount ha
   have c2 := recordOutputs_step ok
   unfold recordTx; step_tac
 
-theorem recordBatch_step (hash : Hash) (rates avgs : Option TMap) (txs : List Tx) :
+theorem recordBatch_stepA (hash : Hash) (rates avgs : Option TMap) (txs : List Tx) (ha : ∀ t ∈ txs, Auth t.inAddr) :
     Step R (recordBatch P h hash rates avgs txs) := by
-  have c1 := recordTx_step ok
-  unfold recordBatch; step_tac
+  unfold recordBatch
+  exact Step.forEachIdx_mem (fun i t ht => recordTx_stepA ok hash rates avgs i t (ha t ht))
 
-theorem applyBatch_step (e : TxEntry) (rates avgs : Option TMap) : Step R (applyBatch P h e rates avgs) := by
-  have c1 := recordBatch_step ok
+theorem applyBatch_stepA (e : TxEntry) (rates avgs : Option TMap) (ha : ∀ t ∈ e.txs, Auth t.inAddr) :
+    Step R (applyBatch P h e rates avgs) := by
+  have c1 := recordBatch_stepA ok e.hash rates avgs e.txs ha
   unfold applyBatch; step_tac
 
 theorem payPegReq_step (rates : TMap) (r : PegReq) (y : Nat) : Step R (payPegReq P h rates r y) := by
@@ -90,8 +119,8 @@ theorem mintTokens_step : Step R (mintTokens P) := by
   prims ok
   unfold mintTokens; step_tac
 
-theorem nullifyMinted_step (c : DB) : Step R (nullifyMinted P c) := by
-  have c1 := subBal_step ok
+theorem nullifyMinted_stepA (c : DB) (ha : Auth P.mintAddr) : Step R (nullifyMinted P c) := by
+  have c1 := fun t v => subBal_stepA ok P.mintAddr t v ha
   unfold nullifyMinted; step_tac
 
 theorem insertZeroingCoinbase_step (txid : String) (i hh : Nat) (ts : Int) (payout : Nat) (asset : String) (a : Addr) :
@@ -99,9 +128,9 @@ theorem insertZeroingCoinbase_step (txid : String) (i hh : Nat) (ts : Int) (payo
   prims ok
   unfold insertZeroingCoinbase; step_tac
 
-theorem nullifyBurnLoop_step (c : DB) (hh : Nat) (ts : Int) (a : Addr) (i j : Nat) (ts' : List Ticker) :
+theorem nullifyBurnLoop_stepA (c : DB) (hh : Nat) (ts : Int) (a : Addr) (ha : Auth a) (i j : Nat) (ts' : List Ticker) :
     Step R (nullifyBurnLoop P c hh ts a i j ts') := by
-  have c1 := subBal_step ok
+  have c1 := fun t v => subBal_stepA ok a t v ha
   have c2 := insertZeroingCoinbase_step ok
   induction ts' generalizing i j with
   | nil => unfold nullifyBurnLoop; step_tac
@@ -109,9 +138,10 @@ theorem nullifyBurnLoop_step (c : DB) (hh : Nat) (ts : Int) (a : Addr) (i j : Na
     unfold nullifyBurnLoop
     step_tac
 
-theorem nullifyBurn_step (c : DB) (hh : Nat) (ts : Int) : Step R (nullifyBurn P c hh ts) := by
+theorem nullifyBurn_stepA (c : DB) (hh : Nat) (ts : Int)
+    (ha : Auth (if hh < P.act.v202 then P.oldBurnAddr else P.burnAddr)) : Step R (nullifyBurn P c hh ts) := by
   unfold nullifyBurn
-  exact nullifyBurnLoop_step ok ..
+  exact nullifyBurnLoop_stepA ok c hh ts _ ha ..
 
 theorem insertGradeBlock_step (keymr : String) (g : OprGraded) : Step R (insertGradeBlock h keymr g) := by
   prims ok
@@ -143,26 +173,61 @@ theorem recordHistory_step (bo : Nat) (e : TxEntry) : Step R (recordHistory P h 
   prims ok
   unfold recordHistory; step_tac
 
-theorem applyTxEntry_step (keymr : String) (bo : Nat) (e : TxEntry) : Step R (applyTxEntry P h keymr bo e) := by
+theorem applyTxEntry_stepA (keymr : String) (bo : Nat) (e : TxEntry)
+    (ha : e.validAt P h = true → ∀ t ∈ e.txs, Auth t.inAddr) : Step R (applyTxEntry P h keymr bo e) := by
   prims ok
   have c1 := recordHistory_step ok
-  have c2 := applyBatch_step ok
-  unfold applyTxEntry; step_tac
+  unfold applyTxEntry
+  apply Step.bind Step.get
+  intro db
+  split
+  · rename_i hc
+    have hv : e.validAt P h = true := by
+      simp only [Bool.and_eq_true] at hc
+      exact hc.1.1
+    have c2 := applyBatch_stepA ok e none none (ha hv)
+    step_tac
+  · exact Step.pure _
 
-theorem applyTransactionBlock_step (keymr : String) (es : List TxEntry) :
+theorem applyTransactionBlock_stepA (keymr : String) (es : List TxEntry)
+    (ha : ∀ e ∈ es, e.validAt P h = true → ∀ t ∈ e.txs, Auth t.inAddr) :
     Step R (applyTransactionBlock P h keymr es) := by
-  have c1 := applyTxEntry_step ok
-  unfold applyTransactionBlock; step_tac
+  unfold applyTransactionBlock
+  exact Step.forEachIdx_mem (fun i e he => applyTxEntry_stepA ok keymr i e (ha e he))
 
-theorem applyHeld_step (rates avgs : TMap) (e : TxEntry) : Step R (applyHeld P h rates avgs e) := by
+theorem applyHeld_stepA (rates avgs : TMap) (e : TxEntry)
+    (ha : e.validAt P h = true → ∀ t ∈ e.txs, Auth t.inAddr) : Step R (applyHeld P h rates avgs e) := by
   prims ok
-  have c2 := applyBatch_step ok
-  unfold applyHeld; step_tac
+  unfold applyHeld
+  apply Step.bind Step.get
+  intro db
+  split
+  · step_tac
+  · rename_i hc
+    have hv : e.validAt P h = true := by
+      cases hval : e.validAt P h with
+      | true => rfl
+      | false => simp [hval] at hc
+    have c2 := applyBatch_stepA ok e (some rates) (some avgs) (ha hv)
+    step_tac
 
-theorem applyHolding_step (c : DB) (rates avgs : TMap) (fromH : Nat) :
+theorem applyHolding_stepA (c : DB) (rates avgs : TMap) (fromH : Nat)
+    (ha : ∀ row ∈ c.holding, row.entry.validAt P h = true → ∀ t ∈ row.entry.txs, Auth t.inAddr) :
     Step R (applyHolding P c h rates avgs fromH) := by
-  have c1 := applyHeld_step ok
   have c2 := recordPegRequests_step ok
+  have c1 : ∀ i, ∀ e ∈ (c.holding.filter (·.height == i)).map (·.entry), Step R (applyHeld P h rates avgs e) := by
+    intro i e he
+    obtain ⟨row, hrow, hre⟩ := List.mem_map.1 he
+    subst hre
+    exact applyHeld_stepA ok rates avgs row.entry (ha row (List.mem_filter.1 hrow).1)
+  have c3 : ∀ (pend : List TxEntry) (i : Nat), Step R (M.foldM (fun (l : List TxEntry) e => do
+          let join ← applyHeld P h rates avgs e
+          pure (if join then l ++ [e] else l)) pend ((c.holding.filter (·.height == i)).map (·.entry))) := by
+    intro pend i
+    apply Step.foldM_mem
+    intro l e he
+    have := c1 i e he
+    step_tac
   unfold applyHolding; step_tac
 
 theorem applyFct_step (rcd : Addr) (f : FctTx) : Step R (applyFct P h rcd f) := by
@@ -185,20 +250,29 @@ end
 
 /-! ### the block -/
 
-theorem gradeAndRates_step {P : Params} {R : Rel DB} (c : DB) (b : Block) (ok : PrimsOK P b.height R) :
+theorem gradeAndRates_step {P : Params} {R : Rel DB} {Auth : Addr → Prop} (c : DB) (b : Block) (ok : PrimsOK P b.height R Auth) :
     Step R (gradeAndRates P c b) := by
   have c1 := insertGradeBlock_step ok
   have c2 := insertRates_step ok
   unfold gradeAndRates; step_tac
 
-section
-variable {P : Params} {R : Rel DB} (c : DB) (b : Block) (avgs : TMap) (ok : PrimsOK P b.height R)
-include ok
+/-- what the block at `b.height`, applied on the committed database `c`, is entitled to debit:
+    the input address of every batch on the transaction chain or in holding that validates at
+    this height (signature included), and the special addresses of the scheduled adjustments -/
+structure AuthOK (P : Params) (Auth : Addr → Prop) (c : DB) (b : Block) : Prop where
+  txs : ∀ es, b.txs = some es → ∀ e ∈ es, e.validAt P b.height = true → ∀ t ∈ e.txs, Auth t.inAddr
+  held : ∀ row ∈ c.holding, row.entry.validAt P b.height = true → ∀ t ∈ row.entry.txs, Auth t.inAddr
+  mint : b.height = P.act.v204Burn → Auth P.mintAddr
+  burn : b.height = P.act.devRewards ∨ b.height = P.act.v202 →
+    Auth (if b.height < P.act.v202 then P.oldBurnAddr else P.burnAddr)
 
-theorem preAdjust_step : Step R (preAdjust P c b.height) := by
-  have c2 := mintTokens_step ok
-  have c3 := nullifyMinted_step ok
-  unfold preAdjust; step_tac
+theorem authOK_true (P : Params) (c : DB) (b : Block) : AuthOK P (fun _ => True) c b :=
+  ⟨fun _ _ _ _ _ _ _ => trivial, fun _ _ _ _ _ => trivial, fun _ => trivial, fun _ => trivial⟩
+
+section
+variable {P : Params} {R : Rel DB} {Auth : Addr → Prop} (c : DB) (b : Block) (avgs : TMap)
+  (ok : PrimsOK P b.height R Auth) (au : AuthOK P Auth c b)
+include ok
 
 theorem sprPanicCheck_step : Step R (sprPanicCheck b) := by
   unfold sprPanicCheck; step_tac
@@ -206,21 +280,6 @@ theorem sprPanicCheck_step : Step R (sprPanicCheck b) := by
 theorem snapshotPhase_step : Step R (snapshotPhase P b) := by
   have c4 := snapshotPayouts_step ok
   unfold snapshotPhase; step_tac
-
-theorem holdingPhase_step (ra : Bool) : Step R (holdingPhase P c b avgs ra) := by
-  prims ok
-  have c5 := applyHolding_step ok
-  unfold holdingPhase; step_tac
-
-theorem txBlockPhase_step : Step R (txBlockPhase P b) := by
-  have c6 := applyTransactionBlock_step ok
-  unfold txBlockPhase; step_tac
-
-theorem txPhase_step (ra : Bool) : Step R (txPhase P c b avgs ra) := by
-  have c1 := snapshotPhase_step b ok
-  have c2 := holdingPhase_step c b avgs ok
-  have c3 := txBlockPhase_step b ok
-  unfold txPhase; step_tac
 
 theorem oprRewardPhase_step : Step R (oprRewardPhase P b) := by
   have c8 := applyGradedOPR_step ok
@@ -241,24 +300,112 @@ theorem rewardPhase_step : Step R (rewardPhase P b) := by
   have c3 := devRewardPhase_step b ok
   unfold rewardPhase; step_tac
 
-theorem syncBlock_step : Step R (syncBlock P c b avgs) := by
+include au
+
+theorem preAdjust_stepA : Step R (preAdjust P c b.height) := by
+  have c2 := mintTokens_step ok
+  have hjp : Step R (if b.height = P.act.v204Burn then nullifyMinted P c else pure ()) := by
+    split
+    · rename_i hb; exact nullifyMinted_stepA ok c (au.mint hb)
+    · exact Step.pure _
+  unfold preAdjust
+  dsimp only
+  split
+  · exact Step.bind c2 (fun _ => hjp)
+  · exact hjp
+
+theorem holdingPhase_stepA (ra : Bool) : Step R (holdingPhase P c b avgs ra) := by
+  prims ok
+  have c5 := fun rates fromH => applyHolding_stepA ok c rates avgs fromH au.held
+  unfold holdingPhase; step_tac
+
+theorem txBlockPhase_stepA : Step R (txBlockPhase P b) := by
+  unfold txBlockPhase
+  split
+  · rename_i es hes
+    exact applyTransactionBlock_stepA ok b.txKeymr es (au.txs es hes)
+  · exact Step.pure _
+
+theorem txPhase_stepA (ra : Bool) : Step R (txPhase P c b avgs ra) := by
+  have c1 := snapshotPhase_step b ok
+  have c2 := holdingPhase_stepA c b avgs ok au
+  have c3 := txBlockPhase_stepA c b ok au
+  unfold txPhase; step_tac
+
+theorem syncBlock_stepA : Step R (syncBlock P c b avgs) := by
   have c1 := gradeAndRates_step c b ok
-  have c2 := preAdjust_step c b ok
+  have c2 := preAdjust_stepA c b ok au
   have c3 := sprPanicCheck_step (P := P) b ok
-  have c4 := txPhase_step c b avgs ok
+  have c4 := txPhase_stepA c b avgs ok au
   have c5 := rewardPhase_step b ok
   unfold syncBlock; step_tac
 
-theorem burnZeroing_step : Step R (burnZeroing P c b) := by
-  have c2 := nullifyBurn_step ok
-  unfold burnZeroing; step_tac
+theorem burnZeroing_stepA : Step R (burnZeroing P c b) := by
+  have hjp : Step R (if b.height = P.act.v202 then do
+        let _ ← M.swallow (nullifyBurn P c b.height b.ts)
+        pure ()
+      else (pure () : LM Unit)) := by
+    split
+    · rename_i hb
+      have := nullifyBurn_stepA ok c b.height b.ts (au.burn (Or.inr hb))
+      step_tac
+    · exact Step.pure _
+  unfold burnZeroing
+  dsimp only
+  split
+  · rename_i hb
+    have := nullifyBurn_stepA ok c b.height b.ts (au.burn (Or.inl hb))
+    exact Step.bind (Step.swallow this) (fun _ => hjp)
+  · exact hjp
 
-/-- every step of the block transaction respects `R` -/
-theorem blockTx_step : Step R (blockTx P c b avgs) := by
+/-- every step of the block transaction respects `R`, provided `SubFromBalance` does for the
+    addresses the block is entitled to debit -/
+theorem blockTx_stepA : Step R (blockTx P c b avgs) := by
   prims ok
-  have c1 := syncBlock_step c b avgs ok
-  have c2 := burnZeroing_step c b ok
+  have c1 := syncBlock_stepA c b avgs ok au
+  have c2 := burnZeroing_stepA c b ok au
   unfold blockTx; step_tac
+
+end
+
+/-! ### the unconditional versions (`Auth` = everything) -/
+
+section
+variable {P : Params} {h : Nat} {R : Rel DB} (ok : PrimsOK P h R)
+include ok
+
+theorem subBal_step (a : Addr) (t : Ticker) (v : Nat) : Step R (subBal P a t v) := subBal_stepA ok a t v trivial
+theorem recordTx_step (hash : Hash) (rates avgs : Option TMap) (idx : Nat) (t : Tx) :
+    Step R (recordTx P h hash rates avgs idx t) := recordTx_stepA ok hash rates avgs idx t trivial
+theorem recordBatch_step (hash : Hash) (rates avgs : Option TMap) (txs : List Tx) :
+    Step R (recordBatch P h hash rates avgs txs) := recordBatch_stepA ok hash rates avgs txs (fun _ _ => trivial)
+theorem applyBatch_step (e : TxEntry) (rates avgs : Option TMap) : Step R (applyBatch P h e rates avgs) :=
+  applyBatch_stepA ok e rates avgs (fun _ _ => trivial)
+theorem nullifyMinted_step (c : DB) : Step R (nullifyMinted P c) := nullifyMinted_stepA ok c trivial
+theorem nullifyBurn_step (c : DB) (hh : Nat) (ts : Int) : Step R (nullifyBurn P c hh ts) := nullifyBurn_stepA ok c hh ts trivial
+theorem applyTxEntry_step (keymr : String) (bo : Nat) (e : TxEntry) : Step R (applyTxEntry P h keymr bo e) :=
+  applyTxEntry_stepA ok keymr bo e (fun _ _ _ => trivial)
+theorem applyTransactionBlock_step (keymr : String) (es : List TxEntry) :
+    Step R (applyTransactionBlock P h keymr es) := applyTransactionBlock_stepA ok keymr es (fun _ _ _ _ _ => trivial)
+theorem applyHeld_step (rates avgs : TMap) (e : TxEntry) : Step R (applyHeld P h rates avgs e) :=
+  applyHeld_stepA ok rates avgs e (fun _ _ _ => trivial)
+theorem applyHolding_step (c : DB) (rates avgs : TMap) (fromH : Nat) :
+    Step R (applyHolding P c h rates avgs fromH) := applyHolding_stepA ok c rates avgs fromH (fun _ _ _ _ _ => trivial)
+
+end
+
+section
+variable {P : Params} {R : Rel DB} (c : DB) (b : Block) (avgs : TMap) (ok : PrimsOK P b.height R)
+include ok
+
+theorem preAdjust_step : Step R (preAdjust P c b.height) := preAdjust_stepA c b ok (authOK_true P c b)
+theorem holdingPhase_step (ra : Bool) : Step R (holdingPhase P c b avgs ra) := holdingPhase_stepA c b avgs ok (authOK_true P c b) ra
+theorem txBlockPhase_step : Step R (txBlockPhase P b) := txBlockPhase_stepA ({} : DB) b ok (authOK_true P {} b)
+theorem txPhase_step (ra : Bool) : Step R (txPhase P c b avgs ra) := txPhase_stepA c b avgs ok (authOK_true P c b) ra
+theorem syncBlock_step : Step R (syncBlock P c b avgs) := syncBlock_stepA c b avgs ok (authOK_true P c b)
+theorem burnZeroing_step : Step R (burnZeroing P c b) := burnZeroing_stepA c b ok (authOK_true P c b)
+/-- every step of the block transaction respects `R` -/
+theorem blockTx_step : Step R (blockTx P c b avgs) := blockTx_stepA c b avgs ok (authOK_true P c b)
 
 end
 
